@@ -30,10 +30,12 @@ ENGINES = {
 
 
 class RemotePool:
-    def __init__(self, flavour, module, workers, timeout):
+    def __init__(self, flavour, module, workers, timeout, hashseed=None):
         self.flavour = flavour
         overlay = B.build(flavour)
         env = B.env_for(flavour, overlay)
+        if hashseed is not None:
+            env['PYTHONHASHSEED'] = str(hashseed)
         def _limits():
             # ASan inflates C++ stack frames ~10x; scale the main-thread stack limit with it so that only
             # genuinely unbounded recursion overflows (the plain build runs with the default 8 MiB).
